@@ -155,23 +155,54 @@ impl RealConfig {
                 std::env::set_var("XDG_DATA_HOME", user_home);
                 riti_config_new()
             };
+            // A configuration object is a plain record: what a context does with it depends on the values the fields hold when it
+            // is handed over, not on the calls that put them there (a front-end keeps ONE object and changes it as the user
+            // changes the settings).  Two of three objects therefore get a HISTORY first - another layout file, every option set
+            // to the opposite value, the final values written in another order, some of them twice - before they hold `cfg`.
+            static HISTORY: std::sync::atomic::AtomicU64 = std::sync::atomic::AtomicU64::new(0);
+            let n = HISTORY.fetch_add(1, std::sync::atomic::Ordering::Relaxed);
             let lp = CString::new(cfg.layout_path()).unwrap();
+            let set_bool = |k: usize, v: bool| match k {
+                0 => riti_config_set_suggestion_include_english(ptr, v),
+                1 => riti_config_set_phonetic_suggestion(ptr, v),
+                2 => riti_config_set_fixed_suggestion(ptr, v),
+                3 => riti_config_set_fixed_auto_vowel(ptr, v),
+                4 => riti_config_set_fixed_auto_chandra(ptr, v),
+                5 => riti_config_set_fixed_traditional_kar(ptr, v),
+                6 => riti_config_set_fixed_old_reph(ptr, v),
+                7 => riti_config_set_fixed_numpad(ptr, v),
+                8 => riti_config_set_fixed_old_kar_order(ptr, v),
+                9 => riti_config_set_ansi_encoding(ptr, v),
+                _ => riti_config_set_smart_quote(ptr, v),
+            };
+            let vals = [cfg.english, cfg.psug, cfg.fsug, cfg.vowel, cfg.chandra, cfg.kar, cfg.reph, cfg.numpad, cfg.karorder, cfg.ansi, cfg.smart];
+            if n % 3 != 0 {
+                // earlier life of the object: the other kind of layout, every option the other way round
+                let other = if cfg.is_phonetic() { repo_dir().join("data/Probhat.json").to_string_lossy().into_owned() } else { "avro_phonetic".to_string() };
+                let op = CString::new(other).unwrap();
+                let _ = riti_config_set_layout_file(ptr, op.as_ptr());
+                for k in 0..vals.len() {
+                    set_bool(k, !vals[k]);
+                }
+            }
             assert!(riti_config_set_layout_file(ptr, lp.as_ptr()), "layout path rejected: {:?}", lp);
             if cfg.db {
                 let dp = CString::new(repo_dir().join("data").to_string_lossy().into_owned()).unwrap();
                 assert!(riti_config_set_database_dir(ptr, dp.as_ptr()));
             }
-            riti_config_set_suggestion_include_english(ptr, cfg.english);
-            riti_config_set_phonetic_suggestion(ptr, cfg.psug);
-            riti_config_set_fixed_suggestion(ptr, cfg.fsug);
-            riti_config_set_fixed_auto_vowel(ptr, cfg.vowel);
-            riti_config_set_fixed_auto_chandra(ptr, cfg.chandra);
-            riti_config_set_fixed_traditional_kar(ptr, cfg.kar);
-            riti_config_set_fixed_old_reph(ptr, cfg.reph);
-            riti_config_set_fixed_numpad(ptr, cfg.numpad);
-            riti_config_set_fixed_old_kar_order(ptr, cfg.karorder);
-            riti_config_set_ansi_encoding(ptr, cfg.ansi);
-            riti_config_set_smart_quote(ptr, cfg.smart);
+            match n % 3 {
+                0 => for k in 0..vals.len() { set_bool(k, vals[k]); },
+                1 => for k in (0..vals.len()).rev() { set_bool(k, vals[k]); },
+                _ => {
+                    // rotated order, the output-encoding switch toggled once more on the way
+                    let r = (n / 3) as usize % vals.len();
+                    for i in 0..vals.len() {
+                        let k = (i + r) % vals.len();
+                        if k == 9 { set_bool(9, !vals[9]); }
+                        set_bool(k, vals[k]);
+                    }
+                }
+            }
             RealConfig { ptr }
         }
     }
